@@ -45,10 +45,9 @@ FACTORY_KIND = {'list': 0, 'dict': 1, 'set': 10, 'deque': 13}
 CMPOPS = ['eq', 'lt', 'le', 'gt', 'ge']
 # identifiers a helper inside the library is likely to use for a parameter or local of its own.  A field may legally carry
 # any of them (dataclasses itself copes with every one, `self` included).
-# NOT in the pool: `self`.  Suspected defect of the unchanged library (reported to the coordinator): copy_with / deep_copy_with
-# are `def copy_with(self, **kwargs)`, so on a class with a field named `self` x.copy_with(self=v) raises
-# TypeError("got multiple values for argument 'self'") although the constructor accepts self=v (repair: `self, /, **kwargs`).
-NAME_POOL_CORE = ['deep', 'cls', 'kwargs', 'changes', 'other', 'name', 'value', 'field', 'fields', 'obj', 'instance', 'memo']
+# `self` is in the pool since the repair bed89f0 (copy_with / deep_copy_with take self positional-only; before, on a class with a
+# field named `self`, x.copy_with(self=v) raised TypeError("got multiple values for argument 'self'"): finding C11-field-named-self).
+NAME_POOL_CORE = ['self', 'deep', 'cls', 'kwargs', 'changes', 'other', 'name', 'value', 'field', 'fields', 'obj', 'instance', 'memo']
 NAME_POOL_MORE = ['args', 'kw', 'key', 'default', 'init', 'copy', 'replace', 'context', '_context', 'props', 'method',
                   'new_class', 'cls_', 'type_', 'err', 'type_vars', 'order', 'slots', 'kw_only', 'type_safe', 'frozen',
                   'current_values', 'result', 'shallow', 'strict', 'validate', 'depth', 'frame']
